@@ -330,10 +330,53 @@ def scope(seed=0, budget=None):
     # oMathPara wrapper and property elements interleaved
     for s in reps:
         yield E("oMathPara", E("oMathParaPr", E("jc", val="center")), E("oMath", E("ctrlPr"), s, E("ctrlPr")))
+    # deep nesting (level-dependent behaviour)
+    for s in towers():
+        yield E("oMath", s)
+        yield E("oMath", run("p"), s, run("q"))
     # random deeper trees
     rnd = random.Random(seed)
     for _ in range(400 if budget is None else budget):
         yield E("oMath", *[rand_tree(rnd, 3) for _ in range(rnd.randint(1, 3))])
+
+
+TOWER_DEPTHS = (8, 16, 32, 64)
+
+
+def tower_levels():
+    """(tag, builder(inner)) for every structure with ONE operand slot holding the next level and plain runs in the others"""
+    x = lambda t="x": run(t)
+    return [
+        ("f", lambda i: E("f", E("num", i), E("den", x("b")))),
+        ("f", lambda i: E("f", E("num", x("α")), E("den", i))),
+        ("sSup", lambda i: E("sSup", E("e", x()), E("sup", i))),
+        ("sSub", lambda i: E("sSub", E("e", i), E("sub", x("k")))),
+        ("sSubSup", lambda i: E("sSubSup", E("e", x()), E("sub", i), E("sup", x("2")))),
+        ("rad", lambda i: E("rad", E("radPr", E("degHide", val="1")), E("deg"), E("e", i))),
+        ("rad", lambda i: E("rad", E("deg", i), E("e", x()))),
+        ("nary", lambda i: E("nary", E("naryPr", E("chr", val="∫")), E("sub", x("i")), E("sup", x("n")), E("e", i))),
+        ("d", lambda i: E("d", E("dPr", E("begChr", val="["), E("endChr", val="]")), E("e", i))),
+        ("m", lambda i: E("m", E("mr", E("e", i), E("e", x("v"))))),
+        ("func", lambda i: E("func", E("fName", x("sin")), E("e", i))),
+        ("bar", lambda i: E("bar", E("e", i))),
+        ("acc", lambda i: E("acc", E("accPr", E("chr", val="̃")), E("e", i))),
+        ("box", lambda i: E("box", E("boxPr"), E("e", x("g"), i))),
+    ]
+
+
+def towers(depths=TOWER_DEPTHS):
+    """nesting many levels deep (the property quantifies over ALL trees; behaviour that depends on the nesting level --
+    recursion guards, depth budgets, level counters -- only shows beyond the depth of authored examples): every structure
+    nested in its own operand slot, and all structures in rotation, `depth` levels, a skipped property element and a run
+    beside the innermost one.  Depths stay far below the interpreter's recursion limit (3 frames per level)."""
+    lv = tower_levels()
+    for depth in depths:
+        for k in range(len(lv) + 1):
+            inner = E("r", E("rPr", E("sty", val="p")), E("t", text="z"))
+            for j in range(depth):
+                tag, mkl = lv[k] if k < len(lv) else lv[(depth - 1 - j) % len(lv)]
+                inner = mkl(inner)
+            yield inner
 
 
 def representatives(d1):
@@ -583,6 +626,7 @@ def template_scope(tag):
     for s in structures([[r] for r in reps]):
         if s[0] == tag:
             yield s
+    yield from (s for s in towers() if s[0] == tag)
 
 
 def template_check(fn, conv, s):
